@@ -14,6 +14,7 @@ import argparse
 import ast
 import inspect
 import json
+import re
 import os
 import typing
 
@@ -21,7 +22,7 @@ from cddvc import extract
 from cddvc.report import PROVED, REFUTED, UNDECIDED, Run, compare_baseline
 from checks import common, domain, roundtrip as R, rt_matrix as M
 
-TYPES = ["int", "float", "str", "bool", "Optional[int]", "Optional[str]", "Literal['x', 'y']", "Literal[0, 1, 2]", "List[str]", "Union[int, str]"]
+TYPES = ["int", "float", "str", "bool", "Optional[int]", "Optional[str]", "Literal['x', 'y']", "Literal[0, 1, 2]", "List[str]", "Union[int, str]", "int | None", "collections.OrderedDict"]
 
 
 def shape_obligations():
@@ -41,6 +42,14 @@ def shape_obligations():
         ok = ("params_no_kwargs = tuple(filter(lambda param: not param[0].endswith('kwargs'), intermediate_repr['params'].items()))" in txt
               and txt.count("params_no_kwargs") >= 3 and "arg=param[0]), params_no_kwargs))" in txt.replace("\n", ""))
     obs.append(("function/one-arg-per-non-kwargs-parameter", ok, "args and defaults are both mapped from the same tuple params_no_kwargs (every parameter except *kwargs, in order)"))
+    # the annotation node of every emitter comes out of the parser: ast_parse_fix returns ast.parse(<text>).body[0].value on
+    # every path, so unparsing and re-parsing it gives the same node (what ast.parse builds is a fixpoint of unparse/parse)
+    f, _s, _p = extract.find_def("cdd.shared.emit.utils.emitter_utils", "ast_parse_fix")
+    ok = None
+    if f is not None:
+        rets = [n for n in ast.walk(f) if isinstance(n, ast.Return)]
+        ok = bool(rets) and all(r.value is not None and re.fullmatch(r"ast\.parse\(.*\)\.body\[0\]\.value", ast.unparse(r.value), re.S) for r in rets)
+    obs.append(("ast_parse_fix/annotation-node-comes-from-the-parser", ok, "every return of ast_parse_fix is ast.parse(...).body[0].value"))
     return obs
 
 
@@ -54,7 +63,7 @@ def exposes(cell, ir):
     fmt, style = cell[0], cell[1]
     edd = bool(cell[2]) if len(cell) > 2 else False  # emit_default_doc: "Defaults to ..." written into the docstring
     ns = {}
-    exec("from typing import *\nimport argparse\nfrom argparse import ArgumentParser\n", ns)
+    exec("from typing import *\nimport argparse\nimport collections\nfrom argparse import ArgumentParser\n", ns)
     out = []
 
     def key(kind, p):
@@ -123,6 +132,10 @@ def exposes(cell, ir):
             want_req = not p.get("typ", "").startswith("Optional[") and not (p.get("typ") == "bool" and "default" not in p)  # a bare bool is a store_true flag
             if bool(a.required) != want_req:
                 out.append((key("required", p), "option --%s has required=%r, described type %s" % (n, a.required, p.get("typ")), None))
+            # type conversion: a described int / float / complex / bool (also as Optional[...] or `T | None`) is converted by that type
+            base_t = re.sub(r"^Optional\[(.*)\]$", r"\1", p.get("typ", "")).replace(" | None", "")
+            if base_t in ("int", "float", "complex", "bool") and not isinstance(a, argparse._StoreTrueAction) and a.type is not eval(base_t):
+                out.append((key("type-conversion", p), "option --%s converts with %r, described type %s\n%s" % (n, a.type, p.get("typ"), text[-300:]), None))
             if domain.norm_doc(p.get("doc")) and domain.norm_doc(p.get("doc")) not in " ".join((a.help or "").split()):
                 out.append((key("help", p), "help of --%s is %r, described %r" % (n, a.help, p.get("doc")), None))
             if a.required:
@@ -138,6 +151,22 @@ def exposes(cell, ir):
     re2 = ast.dump(ast.parse(ast.unparse(ast.parse(text))))
     if re1 != re2:
         out.append((("unparse-reparse", fmt, style, "-", "-"), "unparse/re-parse of the emitted text is not stable", None))
+    # "unparsing the emitted AST and re-parsing the text gives back an equal AST": the emitted node itself against its text
+    em, back = ast.dump(node), ast.dump(ast.parse(text).body[0])
+    if em != back:
+        i_ = next((i for i, (x, y) in enumerate(zip(em, back)) if x != y), min(len(em), len(back)))
+
+        class _Fold(ast.NodeTransformer):
+            def visit_UnaryOp(self, n_):
+                self.generic_visit(n_)
+                if isinstance(n_.op, ast.USub) and isinstance(n_.operand, ast.Constant) and isinstance(n_.operand.value, (int, float, complex)) and not isinstance(n_.operand.value, bool):
+                    return ast.Constant(value=-n_.operand.value)
+                return n_
+
+        # the one difference class known on the pinned tree: a negative number is emitted as Constant(-3), the parser reads
+        # `-3` as UnaryOp(USub, Constant(3)); anything left after folding that is a different class
+        only_neg = ast.dump(_Fold().visit(ast.parse(text).body[0])) == em
+        out.append((("emitted-ast-differs-from-its-text", fmt, style, "negative-literal-only" if only_neg else "other", "-"), "the emitted AST is not the AST of its own text: ...%s... vs ...%s..." % (em[max(0, i_ - 60):i_ + 60], back[max(0, i_ - 60):i_ + 60]), None))
     return out
 
 
@@ -158,7 +187,7 @@ def main(tier, write_baseline=False):
             refuted.append(("C04/shape/" + name, detail))
     def shape_replay(_name):
         # the clause the shape contracts carry (one emitted element per parameter, in order), by executing emitted programs
-        pool_ = domain.param_pool(["int", "str", "bool", "Optional[int]"], docs=["the {name}"])
+        pool_ = domain.param_pool(["int", "str", "bool", "Optional[int]", "int | None", "collections.OrderedDict"], docs=["the {name}"])
         irs_ = list(domain.irs(1, pool_, suffix_defaults=True)) + list(domain.irs(3, pool_, sample=60, seed=1, suffix_defaults=True))
         # parameters the emitters might be tempted to skip: no description, private name, kwargs-like name
         from collections import OrderedDict
